@@ -226,6 +226,27 @@ def base : Handler
           | .ok y => some ("ok op " ++ showRatList y)
         | .ok .none => some "ok none"
       | _ => none
+  | "c15.spec_safedot", ts => ans do
+      -- the product of the dense denotations of the two operands, compared with what safe_sparse_dot returned
+      let dens : List String → Option (Mat × List String) := fun ts => match ts with
+        | "nd" :: n :: m :: rows :: r => do some (← mat? n m rows, r)
+        | "csr" :: n :: m :: rows :: r => do some (← mat? n m rows, r)
+        | "op" :: r => do
+          let (e, r) ← parseExpr r
+          some (e.denote, r)
+        | _ => none
+      let (a, r) ← dens ts
+      let (b, r) ← dens r
+      match r with
+      | [probe, "mat", n, m, rows, tol] =>
+        let out ← mat? n m rows
+        let _ ← ratList? probe
+        some (holds (closeMat (← rat? tol) (a.mul b) out) ("want=" ++ showMat (a.mul b)))
+      | [probe, "op", out, tol] =>
+        let v ← ratList? probe
+        let out ← ratList? out
+        some (holds (closeVec (← rat? tol) ((a.mul b).mulVec v) out) ("want=" ++ showRatList ((a.mul b).mulVec v)))
+      | _ => none
   /- utilities on matrices (entries) -/
   | "c15.normalize", [n, m, rows, p, sq] => ans do
       let a ← mat? n m rows
@@ -348,6 +369,11 @@ def handle : Handler
         let want ← mat? wn wm wrows
         some (holds (closeMat tol want out) ("want=" ++ wrows))
       | _ => some ("fails definition=" ++ a.replace " " "_")
+  /- `c15.spec_refused cmd args…`: the implementation raised on this request; that is justified only if the
+     request is refused by the model as well (shape errors are characterised by `C15.denote_op_dot_error`) -/
+  | "c15.spec_refused", cmd :: args => ans do
+      let a ← base cmd args
+      some (holds (a.startsWith "err") ("defined=" ++ a.replace " " "_"))
   | cmd, args => base cmd args
 
 end SkNet.Drive.C15
